@@ -174,10 +174,13 @@ def check(prog, res, tier):
 
     def first_len(p):
         for e in p.events:
-            if e.kind == 'ext-call' and e.data['callee'] == 'struct.unpack' and e.under(ifi.short):
-                r = e.data['result']
-                if isinstance(r, TupleV) and r.items and isinstance(r.items[0], IntV):
-                    return r.items[0], e
+            if e.kind == 'ext-call' and e.under(ifi.short):
+                if e.data['callee'] == 'struct.unpack':
+                    r = e.data['result']
+                    if isinstance(r, TupleV) and r.items and isinstance(r.items[0], IntV):
+                        return r.items[0], e
+                if e.data['callee'] == 'int.from_bytes' and isinstance(e.data['result'], IntV):
+                    return e.data['result'], e
         return None, None
 
     def chk_i(p, mode):
@@ -230,8 +233,8 @@ def check(prog, res, tier):
                     pass
             # offsets
             piece = it.origin.get(u.lin.syms()[0])
-            if piece and piece[0] == 'unpack':
-                b = piece[2]
+            if piece and piece[0] in ('unpack', 'from_bytes'):
+                b = piece[2] if piece[0] == 'unpack' else piece[1]
                 if not (len(b.segs) == 1 and st.decide_eq0(b.segs[0].lo - sample.segs[0].lo) is True
                         and st.decide_eq0(b.segs[0].hi - b.segs[0].lo - 4) is True):
                     fails.append(definite('the first record length is not read from bytes 0-3'))
